@@ -61,6 +61,7 @@ pub fn check_cmd(args: &[String]) -> i32 {
         "C10" => c10(&a),
         "C14" => c14(&a),
         "C11" => c11(&a),
+        "C16" => c16(&a),
         "C12" => c12(&a),
         "C13" => c13(&a),
         "C15" => c15(&a),
@@ -1207,6 +1208,52 @@ fn c05(a: &Args) -> Report {
             "corruptions_answered_with_error_or_quarantine": st.corruptions_detected,
         }),
         assumptions: vec!["corruptions of at most 32 contiguous bits (the CRC32C guarantee); metadata content carries no checksum of its own and is out of scope of the corruption part".into()],
+        wall_s: 0.0,
+        violations,
+        known: vec![],
+        machinery_errors: machinery,
+    }
+}
+
+fn c16(a: &Args) -> Report {
+    let thorough = a.tier == "thorough";
+    let (st, viols) = crate::engines::tools::run(thorough, a.threads);
+    let mut violations = Vec::new();
+    let mut machinery = Vec::new();
+    for (name, damage, fs) in &viols {
+        if fs.iter().any(|f| f.kind == "machinery") {
+            machinery.push(format!("{name} {damage:?}: {fs:?}"));
+            continue;
+        }
+        violations.push((json!({"engine": "tools", "blob": name, "damage": damage, "findings": fs}), format!("[blob {name}] {damage:?} :: {}: {}", fs[0].kind, fs[0].detail)));
+    }
+    violations.truncate(16);
+    Report {
+        property: "C16".into(),
+        tier: a.tier.clone(),
+        seed: a.seed,
+        level: "fault_enumeration".into(),
+        coverage: json!({
+            "evaluations": st.cases + st.index_checks,
+            "distinct_nontrivial": st.cases,
+            "rule": "blobs + index files written by the real storage for a set of small histories; per blob: the intact file, every truncation length and every byte position x {xor 01, xor ff} (in records larger than 3 KB: every position near headers / boundaries and a stride inside the data); each damaged input goes through validate_blob, recovery_blob with and without skipping, migrate_blob, move_and_recover_blob in a child process under an address-space limit, outputs are parsed by an independent parser and opened with Storage; index files: validate_index / read_index / summary collectors on the intact file, validate_index on every 3rd truncation length and every 2nd byte with a flipped bit; every case is distinct",
+            "samples": st.samples,
+            "exhaustive": true,
+            "blobs": st.blobs,
+            "truncations": st.truncations,
+            "flips": st.flips,
+            "flips_by_position_class": st.by_position_class,
+            "excluded_by_rule_meta_content": st.excluded_meta_content,
+            "excluded_by_rule_blob_header_version_flags": st.excluded_blob_header_unvalidated,
+            "not_resyncable_size_field_damage": st.not_resyncable,
+            "child_process_deaths": st.child_deaths,
+            "violations_total": st.violations,
+            "violations_by_kind": st.violations_by_kind,
+        }),
+        assumptions: vec![
+            "validation oracle: an independent parser of the blob format (magic, header CRC, data CRC, tiling); metadata content and the blob header's version/flags carry no checksum and are excluded from the accept/reject comparison (counted)".into(),
+            "with skipping, records behind a damaged record are required only when the damage leaves the record's length fields intact".into(),
+        ],
         wall_s: 0.0,
         violations,
         known: vec![],
